@@ -331,6 +331,60 @@ func c06AdversarialFastPath(r *rand.Rand) []c06Op {
 	return ops
 }
 
+// round 7: hooks that register hooks.  A before-hook registering an after-hook (it must run after
+// the very write that commits), a before-hook registering a before-hook (Go reads the slice once:
+// it never runs), an after-hook registering an after-hook (from the next write on, again each
+// time) or a before-hook (never), around implicit and explicit commits.
+func c06RegistrarOp(r *rand.Rand) c06Op {
+	k := []string{"bf", "bf", "bf", "af"}[r.Intn(4)]
+	o := c06Op{K: k, H: 1 + r.Intn(3)}
+	if r.Intn(5) != 0 {
+		o.Sub, o.SubH = []string{"af", "af", "bf"}[r.Intn(3)], 5+r.Intn(3)
+	}
+	return o
+}
+
+func c06HookProgram(r *rand.Rand) []c06Op {
+	c1 := c06Codes[r.Intn(len(c06Codes))]
+	commit := func() c06Op {
+		switch r.Intn(8) {
+		case 0, 1, 2:
+			return c06Op{K: "w", N: r.Intn(4)}
+		case 3:
+			return c06Op{K: "json", C: c1, N: r.Intn(3)}
+		case 4:
+			return c06Op{K: "blob", C: c1, CT: 1, N: r.Intn(3)}
+		case 5:
+			return c06Op{K: "fl"}
+		case 6:
+			return c06Op{K: "wstr", N: 1 + r.Intn(3)}
+		}
+		return c06Op{K: "wh", C: c1}
+	}
+	var ops []c06Op
+	for k := 1 + r.Intn(3); k > 0; k-- {
+		ops = append(ops, c06RegistrarOp(r))
+	}
+	if r.Intn(4) == 0 {
+		ops = append(ops, c06Op{K: "json", C: c1, Bad: true})
+	}
+	for k := 1 + r.Intn(3); k > 0; k-- {
+		ops = append(ops, commit())
+		if r.Intn(4) == 0 {
+			ops = append(ops, c06RegistrarOp(r))
+		}
+	}
+	return ops
+}
+
+func c06HookAlphabet() []c06Op {
+	return []c06Op{
+		{K: "bf", H: 1, Sub: "af", SubH: 7}, {K: "bf", H: 2, Sub: "bf", SubH: 8}, {K: "af", H: 3, Sub: "af", SubH: 9},
+		{K: "af", H: 4, Sub: "bf", SubH: 5}, {K: "af", H: 6}, {K: "w", N: 2}, {K: "wh", C: 404}, {K: "fl"},
+		{K: "json", C: 201, N: 1}, {K: "blob", C: 202, CT: 1, N: 1},
+	}
+}
+
 func c06AdversarialR4(r *rand.Rand, c1, c2, h int) [][]c06Op {
 	// commit with zero body bytes, then a JSON helper (Committed, not Size, decides "already sent")
 	zero := [][]c06Op{{{K: "fl"}}, {{K: "wh", C: c1}}, {{K: "nc", C: c1}}, {{K: "redir", C: 302}}, {{K: "w", N: 0}},
@@ -530,6 +584,35 @@ func c06Gen(r *rand.Rand, tier string) []any {
 		}
 		rec5(nil)
 	}
+	// hooks that register hooks: exhaustive over a 10-op alphabet up to length 3 (thorough: 4) ...
+	halpha := c06HookAlphabet()
+	var hrec func(prefix []c06Op, l int)
+	hrec = func(prefix []c06Op, l int) {
+		if len(prefix) > 0 {
+			out = append(out, &c06Case{Cap: -1, Ops: append([]c06Op(nil), prefix...), Fresh: len(out)%3 == 0, RF: len(out)%2 == 0, X: len(out)%4 < 2})
+		}
+		if l == 0 {
+			return
+		}
+		for _, o := range halpha {
+			hrec(append(prefix, o), l-1)
+		}
+	}
+	hrec(nil, maxLen)
+	// ... and random ones (a few of them with a capacity, a non-flusher or earlier requests: those
+	// are judged by the oracle alone)
+	for i := 0; i < nAdv/2; i++ {
+		c := &c06Case{Cap: -1, Ops: c06HookProgram(r), Fresh: r.Intn(4) == 0, RF: r.Intn(2) == 0, X: r.Intn(2) == 0, HJ: r.Intn(2) == 0}
+		switch r.Intn(10) {
+		case 0:
+			c.Cap = r.Intn(6)
+		case 1:
+			c.Prev = [][]c06Op{c06HookProgram(r)}
+		case 2:
+			c.NF, c.X = true, false
+		}
+		out = append(out, c)
+	}
 	randProg := func(max int) []c06Op {
 		var ops []c06Op
 		for j := 1 + r.Intn(max); j > 0; j-- {
@@ -714,6 +797,11 @@ func c06Shrink(ci any) []any {
 			d.Ops[i].RErr = false
 			out = append(out, d)
 		}
+		if o.Sub != "" {
+			d := cp()
+			d.Ops[i].Sub, d.Ops[i].SubH = "", 0
+			out = append(out, d)
+		}
 		if (o.K == "jsonp" || o.K == "jsonpv") && o.H > 0 {
 			d := cp()
 			d.Ops[i].H = 0
@@ -760,7 +848,7 @@ func c06Mutate(r *rand.Rand, ci any) []any {
 func init() {
 	register(&Prop{
 		ID:             "C06",
-		Rule:           "handler programs over {WriteHeader, Write, Flush, Before, After, JSON / JSONPretty (serialisable or not), String/HTML/JSONBlob/Blob, NoContent, Redirect (valid and invalid codes), Stream, XMLBlob, JSONPBlob, JSONP (serialisable or not), XML / XMLPretty (encodable or not), Render (no renderer / failing renderer / working renderer), File / FileFS+StaticFileHandler / Attachment / Inline (file of n bytes, empty file, missing file, directory with and without index.html, file without Seek), Hijack, flush through http.ResponseController, flush through the FlushError convention (interface assertion, else Flush), Unwrap, io.Copy into the Response from a source without WriteTo (probes the Response for io.ReaderFrom) and from a strings.Reader (WriteTo → io.WriteString: probes it for io.StringWriter), io.WriteString into the Response}, run as ONE request or as the last of 2-4 requests served on the same recycled context (a third of the random cases; Echo.ServeHTTP + sync.Pool, or one context with Context.Reset); exhaustive over a 22-op alphabet up to length 3 (thorough: 4, plus every program of length 5 over a 10-op core alphabet), random programs of 1-12 ops (thorough: 1-24), adversarial single-request templates (flush first, commit with zero body bytes then JSON/JSONPretty, every helper after commit, unserialisable JSON then write, unserialisable JSONP/XML then WriteHeader, Attachment of a missing file then a commit, Render without a page, hooks around multi-write helpers, redirect code bounds, Hijack before/after commit), adversarial request sequences (an earlier request ends uncommitted with a preset status and/or hooks, or committed with a non-200 status / a large Size / hooks; the following request commits implicitly or registers no hooks and writes); status codes 200-599, 1xx (100-103, 199; echo.Response commits with them like with any other code) and, in 1 of 12 random status writes plus a template family, codes OUTSIDE 100..999 (0 = zero-valued status field, 1, 99, 1000, 1001, 65536, -1, -200) on an underlying writer that either accepts every code (Status must equal what it sent) or — half of the cases whose programs register no before-hook — refuses such a code the way net/http and httptest.ResponseRecorder do (first WriteHeader panics before anything is recorded: the operation is aborted, nothing is out, Committed must stay false, the refused status stays pending; the harness recovers per step); a quarter of the cases with a writer capacity at 0 / total-1 / total / random so writes come back short; underlying writers in all 16 combinations of {io.StringWriter + FlushError (half; like net/http's connection writer), http.Flusher (absent in a quarter of the cases: Flush commits, then panics, the harness recovers per step), io.ReaderFrom (half), http.Hijacker (half)}; a quarter with the request URL /?pretty; a fifth (sequences: half) through Echo.NewContext/Context.Reset (Status starts at 0) instead of ServeHTTP; thorough: 4000 single-request programs additionally behind a real httptest.Server (client status/body length vs Response.Status/Size; no 1xx codes and no Hijack there); Response fields and the recording writer are sampled after EVERY step of EVERY request; the first-status clause is judged against the status preset by THIS request's program text (tracked by the harness, not read from Response.Status); non-trivial = at least one operation after the headers went out AND (a hook registered, or flush as first operation of the last request, or a short write, or >=4 distinct tags), OR a committed last request after an earlier request that left hooks / a preset status / a non-trivial committed response on the context; distinct = distinct model op lines",
+		Rule:           "handler programs over {WriteHeader, Write, Flush, Before, After, JSON / JSONPretty (serialisable or not), String/HTML/JSONBlob/Blob, NoContent, Redirect (valid and invalid codes), Stream, XMLBlob, JSONPBlob, JSONP (serialisable or not), XML / XMLPretty (encodable or not), Render (no renderer / failing renderer / working renderer), File / FileFS+StaticFileHandler / Attachment / Inline (file of n bytes, empty file, missing file, directory with and without index.html, file without Seek), Hijack, flush through http.ResponseController, flush through the FlushError convention (interface assertion, else Flush), Unwrap, io.Copy into the Response from a source without WriteTo (probes the Response for io.ReaderFrom) and from a strings.Reader (WriteTo → io.WriteString: probes it for io.StringWriter), io.WriteString into the Response}, run as ONE request or as the last of 2-4 requests served on the same recycled context (a third of the random cases; Echo.ServeHTTP + sync.Pool, or one context with Context.Reset); exhaustive over a 22-op alphabet up to length 3 (thorough: 4, plus every program of length 5 over a 10-op core alphabet), random programs of 1-12 ops (thorough: 1-24), adversarial single-request templates (flush first, commit with zero body bytes then JSON/JSONPretty, every helper after commit, unserialisable JSON then write, unserialisable JSONP/XML then WriteHeader, Attachment of a missing file then a commit, Render without a page, hooks around multi-write helpers, redirect code bounds, Hijack before/after commit), adversarial request sequences (an earlier request ends uncommitted with a preset status and/or hooks, or committed with a non-200 status / a large Size / hooks; the following request commits implicitly or registers no hooks and writes); status codes 200-599, 1xx (100-103, 199; echo.Response commits with them like with any other code) and, in 1 of 12 random status writes plus a template family, codes OUTSIDE 100..999 (0 = zero-valued status field, 1, 99, 1000, 1001, 65536, -1, -200) on an underlying writer that either accepts every code (Status must equal what it sent) or — half of the cases whose programs register no before-hook — refuses such a code the way net/http and httptest.ResponseRecorder do (first WriteHeader panics before anything is recorded: the operation is aborted, nothing is out, Committed must stay false, the refused status stays pending; the harness recovers per step); a quarter of the cases with a writer capacity at 0 / total-1 / total / random so writes come back short; underlying writers in all 16 combinations of {io.StringWriter + FlushError (half; like net/http's connection writer), http.Flusher (absent in a quarter of the cases: Flush commits, then panics, the harness recovers per step), io.ReaderFrom (half), http.Hijacker (half)}; a quarter with the request URL /?pretty; a fifth (sequences: half) through Echo.NewContext/Context.Reset (Status starts at 0) instead of ServeHTTP; thorough: 4000 single-request programs additionally behind a real httptest.Server (client status/body length vs Response.Status/Size; no 1xx codes and no Hijack there); hooks that register hooks (a before-hook registering an after-hook or another before-hook, an after-hook registering an after-hook or a before-hook, every time they run): exhaustive over a 10-op alphabet up to length 3 (thorough: 4) plus random programs, compared with the hooks model lean/EchoModel/C06Hooks.lean (single request, unlimited flushing writer) or judged by the oracle alone (capacity, non-flusher, earlier requests); Response fields and the recording writer are sampled after EVERY step of EVERY request; the first-status clause is judged against the status preset by THIS request's program text (tracked by the harness, not read from Response.Status); non-trivial = at least one operation after the headers went out AND (a hook registered, or flush as first operation of the last request, or a short write, or >=4 distinct tags), OR a committed last request after an earlier request that left hooks / a preset status / a non-trivial committed response on the context; distinct = distinct model op lines",
 		New:            func() any { return &c06Case{} },
 		Gen:            c06Gen,
 		Run:            c06Run,
